@@ -307,8 +307,8 @@ def item_term(it):
 # --------------------------------------------------------------------------------------------------
 # conversations
 
-GOOD_SQL = ["SELECT a FROM t;", "SELECT 1;", "INSERT INTO t (a) VALUES (1);", "UPDATE t SET a = 1;", "DELETE FROM t WHERE a = 1;", "SELECT 'é😀' FROM t;", ""]
-BAD_SQL = ["SELECT * FROM ;", "SELECT FROM WHERE ;", "INSERT INTO ;", ") ;", "SELECT a FROM t WHERE ;", "UPDATE SET ;", "SELECT 'é😀' FROM ;"]
+GOOD_SQL = ["SELECT a FROM t WHERE name LIKE 'John%';", "SELECT 10 % 3;", "SELECT a FROM t;", "SELECT 1;", "INSERT INTO t (a) VALUES (1);", "UPDATE t SET a = 1;", "DELETE FROM t WHERE a = 1;", "SELECT 'é😀' FROM t;", ""]
+BAD_SQL = ["SELECT a FROM t WHERE a LIKE %;", "SELECT 100 %d %s %v FROM;", "SELECT '50%' FROM;", "SELECT * FROM ;", "SELECT FROM WHERE ;", "INSERT INTO ;", ") ;", "SELECT a FROM t WHERE ;", "UPDATE SET ;", "SELECT 'é😀' FROM ;"]
 
 
 def sql_doc(rng):
@@ -398,7 +398,7 @@ def gen_conversation(rng, nmsgs, uris=("file:///a.sql", "file:///b é😀.sql"),
     version = {}
     c.req("initialize", {"processId": 1, "rootUri": "file:///", "capabilities": {}})
     c.notif("initialized", {})
-    idpool = [lambda: rng.randint(-5, 10 ** 6), lambda: "s%d" % rng.randint(0, 999), lambda: rng.choice(["", "é😀", "0", "null"]), lambda: 2 ** 53 - rng.randint(0, 3)]
+    idpool = [lambda: rng.randint(-5, 10 ** 6), lambda: "s%d" % rng.randint(0, 999), lambda: rng.choice(["", "é😀", "0", "null", "%d", "100%s", "%!x"]), lambda: 2 ** 53 - rng.randint(0, 3)]
     def pos_for(u):
         d = docs.get(u, "")
         r, _ = rand_range(rng, d)
@@ -456,7 +456,7 @@ def gen_conversation(rng, nmsgs, uris=("file:///a.sql", "file:///b é😀.sql"),
                 p["context"] = {"diagnostics": [{"range": rg, "message": rng.choice(["unexpected keyword", "expected ;", "x"]), "code": rng.choice([1, "E2002", None])}]}
             c.req(m, p, idv=rng.choice(idpool)())
         elif k < 0.89:
-            c.req(rng.choice(["foo/bar", "textDocument/definition", "$/unknown", "exit", "textDocument/didOpen"]), rng.choice([None, {}, [1, 2]]), idv=rng.choice(idpool)())
+            c.req(rng.choice(["foo/bar", "textDocument/definition", "$/unknown", "exit", "textDocument/didOpen", "foo/%d%s", "100%/x"]), rng.choice([None, {}, [1, 2]]), idv=rng.choice(idpool)())
         elif k < 0.92:
             c.notif(rng.choice(["$/cancelRequest", "foo", "shutdown", "initialize", "workspace/didChangeConfiguration"]), rng.choice([None, {"id": 1}]))
         elif k < 0.95:
